@@ -895,7 +895,8 @@ fn connack_step(n: usize) {
     assert!(h.last_pkid == g.last_pkid || (g.last_pkid >= st.max_outgoing_inflight && h.last_pkid == 0), "C07 connack.id_counter");
     // the packet-id counter must stay below the (possibly lowered) window, and the window must be usable
     assert!(wf_g(&st, &h), "C07 connack.wf_after_receive_max");
-    kani::cover!(r.is_ok() && st.max_outgoing_inflight < old_max, "window lowered");
+    // a window of one cannot be lowered (zero is read as one), so the case only exists from two upwards
+    kani::cover!(n == 1 || (r.is_ok() && st.max_outgoing_inflight < old_max), "window lowered");
     core::mem::forget(r);
     core::mem::forget(connack);
     core::mem::forget(st);
